@@ -15,6 +15,10 @@ MERGE-DONE - entries read from disk enter the environment only through a
 store guarded by status == DONE; TOPO - the master examines the tasks in a
 topological order of the SAME graph that supplies `deps` to the decision, so
 a DONE task is never kept on a dependency status the same pass resets.
+CLOCK-SRC - the clocks handed to set_start_end_clock are readings of
+time.time() (followed through locals and through the fields of helper objects
+such as a Chrono): a perf_counter / monotonic reading has an origin that
+changes with the process or the boot and cannot be compared across runs.
 Not decided: sequences of runs beyond these per-run obligations; clock
 monotonicity (time.time() is trusted).
 '''
@@ -27,6 +31,7 @@ def check(ctx):
     ctx.run(sched_worker.check_pub)
     ctx.run(persist.check_merge_done)
     ctx.run(sched_rel.check_topo)
+    ctx.run(sched_worker.check_clock_src)
 
 
 from ..variants import sched as _v   # noqa: E402
